@@ -12,7 +12,7 @@ pub fn meta() -> Meta {
     Meta {
         rule: "events = one string fed to every parsing entry point: Epoch::from_str, Epoch::from_gregorian_str, Epoch::from_format_str(s, fmt), Epoch::from_str_with_format(s, Format), Format::from_str, Format::parse, Duration::from_str, TimeScale/Weekday/MonthName::from_str (the string is used both as input and as format). Expected: outcome is a value or an Err; a panic of any kind (slice boundary, unwrap, todo!, unreachable!, assert, arithmetic overflow under overflow-checks), a step-budget overrun or a sanitizer report is a violation, signature = entry point + normalised panic site. Well-formed ISO text with exactly one field out of range (month 0/13, day 0/32, 30 February, 29 February of a non-leap year, hour 25, minute 60, second 61, UTC offset hours >= 24 or minutes >= 60, day of year 0 or beyond the year in %j formats) must be Err. Generation: grammar-derived valid texts (ISO/RFC3339 with 0-12 fractional digits, Z, offsets, scale suffix; JD/MJD/SEC numeric forms incl. exponents/inf/nan; duration texts and offsets; format strings of 1-18 tokens incl. %w %J %y and '?'; the formatter's own output for random (epoch, format) pairs; scale/weekday/month names) and 1-3 point mutations of them (delete, insert, substitute, truncate, duplicate, long digit runs, huge exponents, multi-byte and digit-like non-ASCII characters, control characters), plus pairs (format string, unrelated input). Non-trivial = mutated or non-ASCII or out-of-range or (format,input) pair; distinct = distinct string hashes among those.",
         assumptions: &["the logical step budget (2000 ticks of the hooked loop) bounds 'terminates'; a generous wall-clock watchdog makes a hang inconclusive rather than silent"],
-        mandatory: &["str/valid-iso", "str/mutated", "str/non-ascii", "str/out-of-range-field", "str/numeric-form", "str/duration", "str/format-string", "str/formatter-output", "str/name", "pair/format-input", "outcome/ok", "outcome/err"],
+        mandatory: &["str/valid-iso", "str/mutated", "str/non-ascii", "str/out-of-range-field", "str/numeric-form", "str/duration", "str/format-string", "str/formatter-output", "str/name", "pair/format-input", "str/extreme-year", "outcome/ok", "outcome/err"],
         thorough_scale: 60,
         exhaustive_part: "out-of-range lattice: every field of an ISO text at {0, max+1, 99}, UTC offsets (hours 24/99, minutes 60/99) and day-of-year formats (day 0, year length + 1, 367, 999; hour 25, minute 60, second 61) for 400 base dates",
     }
@@ -27,7 +27,7 @@ fn mutate(r: &mut Rng, s: &str) -> String {
     let nmut = 1 + r.below(3);
     for _ in 0..nmut {
         let len = chars.len();
-        match r.below(9) {
+        match r.below(11) {
             0 if len > 0 => {
                 chars.remove(r.below(len as u64) as usize);
             }
@@ -53,6 +53,34 @@ fn mutate(r: &mut Rng, s: &str) -> String {
                 let pos = r.below(len as u64 + 1) as usize;
                 for (k, c) in seg.into_iter().enumerate() {
                     chars.insert(pos + k, c);
+                }
+            }
+            9 | 10 => {
+                // integer-width boundary literal (i8/u8/i16/i32/u32/i64 limits and the values 2000 below them)
+                let lit = *r.pick(&["2147483647", "2147483648", "-2147483648", "2147481647", "2147481648", "2147483646", "4294967295", "4294967296", "255", "256", "127", "128", "65535", "65536", "32767", "32768", "9223372036854775807", "9223372036854775808", "18446744073709551615", "999999999", "1000000000", "5879611", "5879612", "-5877711", "-5877712"]);
+                // replace a digit run (if any) or insert
+                let mut start = None;
+                let pick = r.below(len.max(1) as u64) as usize;
+                for i in pick..len {
+                    if chars[i].is_ascii_digit() {
+                        start = Some(i);
+                        break;
+                    }
+                }
+                match start {
+                    Some(a) => {
+                        let mut b = a;
+                        while b < chars.len() && chars[b].is_ascii_digit() {
+                            b += 1;
+                        }
+                        chars.splice(a..b, lit.chars());
+                    }
+                    None => {
+                        let pos = r.below(len as u64 + 1) as usize;
+                        for (k, c) in lit.chars().enumerate() {
+                            chars.insert(pos + k, c);
+                        }
+                    }
                 }
             }
             6 => {
@@ -362,6 +390,17 @@ pub fn run(cfg: &Cfg, rep: &mut Rep) {
         for (h, mi, sc, what) in [(25u32, 0u32, 0u32, "hour"), (10, 60, 0, "minute"), (10, 20, 61, "second"), (99, 0, 0, "hour"), (10, 99, 0, "minute")] {
             check_out_of_range_text(rep, &format!("{:04}-{:03}T{:02}:{:02}:{:02}", y, doy, h, mi, sc), Some("%Y-%jT%H:%M:%S"), what);
             check_out_of_range_text(rep, &format!("{:02}:{:02}:{:02} {:03}/{:04}", h, mi, sc, doy, y), Some("%H:%M:%S %j/%Y"), what);
+        }
+    }
+    // extreme years and integer-width boundary fields in otherwise well-formed texts: value or Err, never a panic
+    if sh == 1 {
+        for y in ["2147483647", "2147483646", "-2147483648", "-2147483647", "2147483648", "5879611", "5879610", "-5877711", "99999999999"] {
+            for rest in ["-12-31T23:59:59", "-12-31T23:59:60", "-06-30T23:59:60", "-01-01T00:00:00", "-02-29T12:00:00 TAI", "-12-31T23:59:59.999999999 ET", "-12-31T23:59:59+23:59"] {
+                let t = format!("{y}{rest}");
+                feed(rep, &t, "%Y-%m-%dT%H:%M:%S", "str/extreme-year", true);
+                feed(rep, &format!("{y}-366"), "%Y-%j", "str/extreme-year", true);
+                feed(rep, &format!("{y}-12-31"), "%y-%m-%d", "str/extreme-year", true);
+            }
         }
     }
     let nrand = cfg.budget(2_400_000);
